@@ -28,6 +28,9 @@ class Interpolation
 	unsigned int Bisection(double x, int jLeft, int jRight);
 	unsigned int Hunt(double x);
 
+	// Curve values at stationary points of the end pieces that lie in [x_1,x_2] but outside the tabulated domain.
+	std::vector<double> Stationary_Values_Outside_Domain(double x_1, double x_2);
+
   public:
 	std::vector<double> domain;
 
